@@ -1030,6 +1030,13 @@ def gen_derived(rng, tier):
         hp = rand_hp(rng, d, (4,), exps=[(0,), (1,)], wide=False)
         cases.append(derived_case("diff", f"diff({d}(4,), n=2)", hp, (lambda hp=hp: numpoly.diff(hp.build(), n=2)),
                                   (lambda a: numpy.diff(a, n=2)), False, ("diff", d, "n=2")))
+        # a term whose coefficient is the same all along the differenced axis: its differences vanish, the result still has
+        # to be computed (zeros written), not left as the buffer was allocated
+        base = rand_hp(rng, d, (4,), exps=[(0,), (1,), (2,)])
+        same = numpy.asarray(base.terms[(1,)]).ravel()[0]
+        hp = HP(d, (4,), ("q0",), {(0,): base.terms[(0,)], (1,): numpy.full((4,), same, dtype=d), (2,): numpy.full((4,), same, dtype=d)})
+        cases.append(derived_case("diff", f"diff({d}(4,)) with constant terms", hp, (lambda hp=hp: numpoly.diff(hp.build())), numpy.diff, False,
+                                  ("diff", d, "cancel")))
         hp = rand_hp(rng, d, (2, 2), exps=[(0,), (1,)])
         cases.append(derived_case("ediff1d", f"ediff1d({d}(2,2))", hp, (lambda hp=hp: numpoly.ediff1d(hp.build())), numpy.ediff1d, True,
                                   ("ediff1d", d, "-")))
